@@ -35,11 +35,13 @@ Further families
             and without R_SUPER), R_COMP, and populations no BridgePoint model holds: no R206 subtype row, two of them,
             R_SIMP with one / no participant or R_FORM only, R_FORM with two participants, R_ASSOC without R_AONE / R_AOTH /
             R_ASSR, R_SUB rows without R_SUPER, a participant of a class that does not exist.  D: the formalised
-            relationships define exactly their associations, and NO association without key pairs is defined (signature
-            `unformalised-association-defined`: an open finding - mk_association does define them, and the direction of an
-            unformalised simple relationship follows the order of its R_PART rows); scopes with missing rows are outside
-            the property.  K: every ending (definitions / AttributeError / TypeError / MetaModelException) equals
-            `buildAll` of the model.
+            relationships define exactly their associations (no keyless association under the number of a formalised
+            relationship, none that belongs to no relationship in scope), and the SQL schema of the built component loads back
+            to the same definitions, `CREATE ROP REF_ID R1 FROM 1C B () TO M A ();` included; what is defined for a
+            relationship that is NOT formalised (a keyless association, for an unformalised simple relationship directed by
+            the order of its R_PART rows) is outside the property's clauses - documented behaviour, compared by K; scopes
+            with missing rows are outside the property.  K: every ending (definitions / AttributeError / TypeError /
+            MetaModelException) equals `buildAll` of the model.  Entries mk_component, build_component, gen_sql_schema.main.
   twins     two of a kind: a second identifier over the same attributes, two classes with the same key letters (or
             differing in letter case only) in different components, the same relationship number in two containers; every
             entry point, edit scripts (the predicted schema edit is not compared: key letters are unique per scope only).
@@ -303,7 +305,7 @@ def generate(ctx):
             E.py_contained(d, _comp_id(d, nm), x['parent']) for x in d['rows'] + d['rels'][len(base['rels']):])]
         name = r.choice(holders) if (holders and r.random() < 0.5) else None
         yield {'src': 'synth', 'family': 'rows', 'diagram': d, 'comp': name, 'drv': r.random() < 0.5, 'edits': [],
-               'entry': r.choice(['mk', 'mk', 'build']), 'perm': r.randint(1, 1 << 30), 'labels': labels,
+               'entry': r.choice(['mk', 'mk', 'build', 'main']), 'perm': r.randint(1, 1 << 30), 'labels': labels,
                'audit': j % 3 == 0}
     # ---- two of a kind: a second identifier over the same attributes, classes with the same key letters (also differing
     #      in letter case only) in different components, the same relationship number in different containers
@@ -763,21 +765,39 @@ def _keyless(schema):
     return [[numb, it] for numb, items in schema[1] for it in items if not it[0][1]]
 
 
-def _build_rows(case, d, tmpdir):
-    """mk_component / build_component for a rows case -> observation"""
+def _build_rows(case, d, tmpdir, fails=None):
+    """mk_component / build_component / gen_sql_schema.main for a rows case -> observation; the SQL schema of a built
+    component is loaded back and compared (the last clause of the property, also for keyless associations)"""
     xtuml, ooaofooa = _ctx['xtuml'], _ctx['ooaofooa']
     name, drv = case['comp'], case['drv']
-    loader, _ = _loader_for(dict(case, diagram=d), tmpdir)
+    loader, path = _loader_for(dict(case, diagram=d), tmpdir)
     try:
+        if case['entry'] == 'main':
+            out = os.path.join(tmpdir, 'schema-%d.sql' % len(os.listdir(tmpdir)))
+            got = _run_main(['gen_sql_schema', '-o', out] + (['-c', name] if name is not None else []) +
+                            (['-d'] if drv else []) + [path], out)
+            comp = loader.build_component(name, drv)
+            if fails is not None and E.canon_metamodel(comp) != got:
+                fails.append({'sig': 'reload-differs', 'what': 'the SQL schema written by gen_sql_schema loads back to %s, '
+                              'build_component defines %s [component=%r labels=%s]'
+                              % (json.dumps(got), json.dumps(E.canon_metamodel(comp)), name, case.get('labels'))})
+            return ['ok', got, got]
         if case['entry'] == 'mk':
             m = loader.build_metamodel()
             if case.get('audit') and d is case['diagram']:
                 if E.normal_diagram(E.decode(m)) != E.normal_diagram(d):
                     raise HarnessError('decode(load(encode(diagram))) differs from the diagram (rows family)')
             c_c = m.select_any('C_C', xtuml.where_eq(Name=name)) if name is not None else None
-            got = E.canon_metamodel(ooaofooa.mk_component(m, c_c, drv))
+            comp = ooaofooa.mk_component(m, c_c, drv)
         else:
-            got = E.canon_metamodel(loader.build_component(name, drv))
+            comp = loader.build_component(name, drv)
+        got = E.canon_metamodel(comp)
+        if fails is not None:
+            back = _reload(xtuml.serialize_schema(comp) + xtuml.serialize_unique_identifiers(comp))
+            if back != got:
+                fails.append({'sig': 'reload-differs', 'what': 'serialize_schema + serialize_unique_identifiers load back to '
+                              '%s, the component defines %s [component=%r labels=%s]'
+                              % (json.dumps(back), json.dumps(got), name, case.get('labels'))})
         return ['ok', got, got]
     except AttributeError:
         return ['error', 'AttributeError']
@@ -791,10 +811,13 @@ def _build_rows(case, d, tmpdir):
 
 def _run_rows(case, stats):
     """relationships outside the formalised shapes.  The property speaks about FORMALISED relationships of well-formed
-    populations: D demands (1) exactly their associations, with their key pairs, and (2) — "one association per formalised
-    relationship", read as "and none for the others" — no association without key pairs.  A scope that holds a
-    relationship with missing rows is outside the property (D demands nothing); K compares every ending with
-    `buildAll` of the model."""
+    populations: D demands exactly their associations with their key pairs - nothing missing, nothing extra under the
+    number of a formalised relationship -, that no association appears that belongs to no relationship in scope, and that the
+    SQL schema of the built component loads back to the same definitions (keyless associations included).  What is
+    defined for a relationship that is NOT formalised (a keyless association; for an unformalised simple relationship its
+    direction follows the order of the R_PART rows) is outside the property's clauses: documented in lean/Props/C14.lean,
+    compared by K only.  A scope that holds a relationship with missing rows is outside the property (D demands nothing);
+    K compares every ending with `buildAll` of the model."""
     d, name, drv = case['diagram'], case['comp'], case['drv']
     comp = _comp_id(d, name)
     fails = []
@@ -804,7 +827,7 @@ def _run_rows(case, stats):
     for x, w in scoped:
         cls = E.py_rows_class(d, w)
         nsub = sum(1 for f in ('simp', 'assoc', 'subsup', 'comp') if w[f])
-        if nsub > 1 or (w['simp'] and w['form'] and len(w['parts']) > 1) or (w['comp'] and nsub == 1 and w['parts']):
+        if nsub > 1 or (w['simp'] and w['form'] and len(w['parts']) > 1):
             cls = 'malformed:' + cls            # more rows than a BridgePoint model can hold
         classes.append(cls)
         stats['rowclass_' + cls] = stats.get('rowclass_' + cls, 0) + 1
@@ -813,7 +836,7 @@ def _run_rows(case, stats):
     outside = any(c.startswith('malformed') or c in ('no-subtype', 'incomplete', 'unresolved') for c in classes)
     stats['rows_outside_property'] = int(outside)
     with tempfile.TemporaryDirectory(dir=_ctx['tmp']) as tmpdir:
-        obs = _build_rows(case, d, tmpdir)
+        obs = _build_rows(case, d, tmpdir, None if outside else fails)
         if not outside:
             if obs[0] != 'ok':
                 fails.append({'sig': 'component-rejected', 'what': '%s raised although every relationship in scope has all '
@@ -824,25 +847,14 @@ def _run_rows(case, stats):
                 if got != want:
                     fails.append({'sig': _first_diff(got, want), 'what': 'the formalised relationships define %s, the class '
                                   'model specifies %s [component=%r]' % (json.dumps(got), json.dumps(want), name)})
-                extra = _keyless(obs[1])
-                if extra and not fails:
-                    # does the direction of an unformalised simple relationship follow the order of its R_PART rows?
-                    flipped = ''
-                    unf = [x for x, w in scoped if 'rows' in x and w['simp'] and not w['form'] and len(w['parts']) == 2
-                           and not w['assoc'] and not w['comp']]
-                    if unf:
-                        d2 = copy.deepcopy(d)
-                        for x in d2['rows']:
-                            if x['id'] == unf[0]['id']:
-                                x['rows']['parts'].reverse()
-                        obs2 = _build_rows(case, d2, tmpdir)
-                        if obs2 != obs:
-                            flipped = '; with the two R_PART rows of R%d in the other order the build gives %s' % (
-                                unf[0]['numb'], json.dumps(_keyless(obs2[1]) if obs2[0] == 'ok' else obs2))
-                    fails.append({'sig': 'unformalised-association-defined', 'what':
-                                  'associations without any key pair are defined for relationships that are not formalised '
-                                  '(no R_FORM / no O_REF rows): %s%s [component=%r labels=%s]'
-                                  % (json.dumps(extra), flipped, name, case.get('labels'))})
+                # keyless associations: only under the number of a relationship in scope that is not (fully) formalised
+                loose_numbs = {x['numb'] for (x, w), c in zip(scoped, classes) if c in ('unformalised', 'partly-formalised')}
+                stray = [it for it in _keyless(obs[1]) if it[0] not in loose_numbs]
+                stats['keyless_associations'] = len(_keyless(obs[1]))
+                if stray and not fails:
+                    fails.append({'sig': 'association-count', 'what': 'associations without key pairs are defined under the '
+                                  'number of a formalised relationship (or of no relationship in scope): %s [component=%r '
+                                  'labels=%s]' % (json.dumps(stray), name, case.get('labels'))})
     key = hashlib.sha1(json.dumps(case, sort_keys=True, default=str).encode()).hexdigest()
     nontrivial = any(c != 'formalised' for c in classes)
     return {'obs': obs, 'd_fail': fails[:3], 'nontrivial': nontrivial, 'key': key, 'stats': stats}
